@@ -245,13 +245,14 @@ def _real_apply(kind, prog, params=()):
         fir.export_unit(sf, main=fir.prog_main(prog))
     except fir.Unsupported as e:
         raise ValueError(f'request program is outside FIR after parsing: {e.kind}') from e
+    text0 = fgen(sf.ir)
     try:
         if kind == 'unroll':
             real_unroll(sf)
         else:
             real_nest(kind, sf, str(prog[1]), params)
         tp = fir.export_unit(sf, main=fir.prog_main(prog))
-        return tp, fgen(sf.ir)
+        return tp, fgen(sf.ir), text0
     except fir.Unsupported:
         raise
     except Exception as e:
@@ -576,15 +577,21 @@ class C31(Prop):
 
     # ---- generation
     def gen(self, rng, tier):
-        n_unroll = {'quick': 30, 'thorough': 250, 'search': 120}.get(tier, 30)
+        n_unroll = {'quick': 30, 'thorough': 180, 'search': 100}.get(tier, 30)
         n_in = 2 if tier == 'quick' else 3
         for j in range(n_unroll):
-            prog = add_unroll_pragmas(rng, fir.gen_program(rng, UNROLL_CFG))
+            prog = fir.canon(add_unroll_pragmas(rng, fir.gen_program(rng, UNROLL_CFG)))
             inputs = fir.gen_inputs(rng, prog, n_in)
-            gf = tier == 'thorough' and j % 6 == 0
+            try:
+                real_apply('unroll', prog)      # primes the cache shared by impl and oracle
+            except (TransformError, fir.Unsupported):
+                pass                            # a failure of the transformation: the oracle reports it
+            except Exception:
+                continue                        # the FP frontend cannot parse the generated program (notes/FIR.md L2): a C01/C02 matter
+            gf = tier == 'thorough' and j % 8 == 0
             yield Case([A('unroll'), prog, inputs, A('gf' if gf else 'nogf')], stream='unroll',
                        nontrivial=any(True for u in units(prog) for _ in unroll_candidates(u[4])))
-        n_nest = {'quick': 4, 'thorough': 30, 'search': 15}.get(tier, 4)
+        n_nest = {'quick': 4, 'thorough': 24, 'search': 12}.get(tier, 4)
         for kind in ('fusion', 'fusion-o', 'fission', 'fission-o', 'interchange', 'block'):
             for j in range(n_nest):
                 prog, params = gen_nest(rng, kind)
@@ -605,7 +612,7 @@ class C31(Prop):
         if (kind == 'fusion' and not fusion_simple(main_body(prog))) or (kind == 'fission' and not fission_simple(main_body(prog))):
             return [A('result'), [], A('excluded')]
         try:
-            tp, _ = real_apply(kind, prog, req_params(req))
+            tp = real_apply(kind, prog, req_params(req))[0]
         except fir.Unsupported as e:
             return [A('unsupported'), str(e.kind)]
         return [A('result'), [A(c) for c in cs], norm_prog(tp)]
@@ -637,7 +644,7 @@ class C31(Prop):
         kind, prog, inputs, flag = decode(req)
         cls = self.classify(kind, prog, req)
         try:
-            tp, text = real_apply(kind, prog, req_params(req))
+            tp, text, text0 = real_apply(kind, prog, req_params(req))
         except (TransformError, fir.Unsupported) as e:
             return [Failure(f'{kind}: transformation or export of its result raised {type(e).__name__}: {str(e)[:120]}', cls)]
         runs = []
@@ -652,6 +659,8 @@ class C31(Prop):
             runs.append(inp)
         if flag == 'gf' and runs:
             err = fir.gfortran_syntax_check(text)
+            if err and fir.gfortran_syntax_check(text0):
+                err = None      # gfortran rejects fgen's text of the UNtransformed routine as well (e.g. `.not..not.x`): a C06 matter
             if err:
                 return [Failure(f'{kind}: gfortran rejects the transformed routine printed by fgen: {err[:160]}', cls)]
             items = []
